@@ -47,8 +47,69 @@ REFUSED = {
 }
 
 
+def random_image(name):
+    """'random:<flavour>:<seed>': the final tree of a random edit history of contracts/fidelity.py as an image table entry"""
+    from contracts import fidelity as F
+    kw, script = F.get_script(name)
+    iso_m, jol_m, rr_m, hidden_m, sym_m, content_m = F.model_of(script)
+    ops = []
+    for p in sorted((p for p, v in iso_m.items() if v[0] == 'dir'), key=lambda p: (p.count('/'), p)):
+        k = dict(iso_path=p)
+        if p in rr_m:
+            k['rr_name'] = rr_m[p]
+        jp = [q for q, v in jol_m.items() if v[0] == 'dir' and q.count('/') == p.count('/')]
+        ops.append(('dir', k, p))
+    # Joliet directories are matched to ISO9660 directories by creation order in the script
+    jdirs = {op[1]: op[3] for op in script if op[0] == 'dir' and op[3]}
+    for op in ops:
+        if op[2] in jdirs and jdirs[op[2]] in jol_m:
+            op[1]['joliet_path'] = jdirs[op[2]]
+    ops = [(o[0], o[1]) for o in ops]
+    seen = {}
+    for p, v in sorted(iso_m.items()):
+        if v[0] != 'file':
+            continue
+        cid = v[1]
+        if cid not in seen:
+            k = dict(iso_path=p)
+            if p in rr_m:
+                k['rr_name'] = rr_m[p]
+            jn = sorted(q for q, w in jol_m.items() if w == v)
+            if jn:
+                k['joliet_path'] = jn[0]
+            ops.append(('file', k, content_m[cid]))
+            seen[cid] = (p, jn[1:])
+            for extra in jn[1:]:
+                ops.append(('link', dict(iso_old_path=p, joliet_new_path=extra)))
+        else:
+            k = dict(iso_old_path=seen[cid][0], iso_new_path=p)
+            if p in rr_m:
+                k['rr_name'] = rr_m[p]
+            ops.append(('link', k))
+    return kw, ops
+
+
+def random_case(name):
+    """(image, victim, new length) for a random image: a file chosen by the seed, a new length that keeps its sector count"""
+    import random
+    kw, ops = random_image(name)
+    rnd = random.Random(name)
+    files = [(o[1]['iso_path'], o[2]) for o in ops if o[0] == 'file']
+    links = [o[1]['iso_new_path'] for o in ops if o[0] == 'link' and 'iso_new_path' in o[1]]
+    path, size = rnd.choice(files)
+    nsec = -(-size // 2048)
+    newlen = 0 if nsec == 0 else rnd.choice([(nsec - 1) * 2048 + 1, nsec * 2048, rnd.randint((nsec - 1) * 2048 + 1, nsec * 2048)])
+    by_link = [l for l in links if any(o[0] == 'link' and o[1].get('iso_new_path') == l and o[1]['iso_old_path'] == path for o in ops)]
+    victim = rnd.choice([path] + by_link)
+    return name, victim, newlen
+
+
+def case_of(name):
+    return random_case(name) if name.startswith('random:') else CASES[name]
+
+
 def build(c, image):
-    kw, ops = IMAGES[image]
+    kw, ops = random_image(image) if image.startswith('random:') else IMAGES[image]
     iso = S.new_image(c, **kw)
     contents, names = {}, {}      # cid -> bytes ; cid -> {'iso': [..], 'joliet': [..], 'udf': [..]}
     by_iso = {}
@@ -139,7 +200,7 @@ class ModifiedInPlace(Base):
     def setup(self, c):
         S.pin_environment(c)
         a = c.a
-        image, a.victim, a.newlen = CASES[self.case]
+        image, a.victim, a.newlen = case_of(self.case)
         built, a.contents, a.names, a.by_iso = build(c, image)
         a.img = S.written(c, built)
         a.fp = c.file(a.img)
@@ -157,7 +218,7 @@ class ModifiedInPlace(Base):
         after = list(a.fp.items) if c.symbolic else list(a.fp.getvalue())
         cl = {'image-file-length-unchanged': len(after) == len(before)}
         try:
-            udf = 'udf' in IMAGES[CASES[self.case][0]][0]
+            udf = (not self.case.startswith('random:')) and 'udf' in IMAGES[CASES[self.case][0]][0]
             vb = views(before, udf)
             va = views(after, udf)
         except (R.Bad, KeyError, IndexError) as e:
